@@ -252,10 +252,27 @@ def r5(ctx):
         ctx.bad('RectanglePixelRegion.to_polygon', 'class', f'to_polygon returns {show(poly, 120)}', tp.loc())
 
 
+def r6(ctx):
+    """the box is recomputed from the region's current parameters (and a compound's current operands) on every use: neither
+    bounding_box, to_mask nor anything of `self` they read remembers a result (memoising decorator, store into self)."""
+    from .c01 import memoised_geometry
+    m = ctx.model
+    for ci in m.region_classes('pixel'):
+        memo = memoised_geometry(m, ci, ('bounding_box', 'to_mask'))
+        if memo:
+            name, why, f = memo[0]
+            ctx.bad(ci.name, f'memoised:{name}',
+                    f'{ci.name}.{name} {why}: after a parameter (or an operand of a compound) is changed the box no longer '
+                    'contains the shape, and region box and mask box can differ', f.loc())
+        else:
+            ctx.ok(ci.name, 'bounding_box / to_mask and what they read are recomputed on every use')
+
+
 RULES = [
     RuleDef('R1', 'float extents are the support functions of each shape', r1, 6),
     RuleDef('R2', 'from_float = floor(min+1/2), ceil(max+1/2); extent = pixel edges', r2, 2),
     RuleDef('R3', 'annulus box = outer box; compound box = union; inheritance', r3, 7),
     RuleDef('R4', 'mask carries self.bounding_box', r4, 4),
     RuleDef('R5', 'rectangle corners use the same rotation frame', r5, 2, tier='thorough'),
+    RuleDef('R6', 'no remembered box: bounding_box / to_mask recompute from current parameters and operands', r6, 12),
 ]
